@@ -37,6 +37,9 @@ type Schedule struct {
 	Order    []int           `json:"order,omitempty"`
 	Grants   []zzsimrt.Grant `json:"grants,omitempty"`
 	PoolSeed uint64          `json:"pool_seed,omitempty"` // != 0: the simulated sync.Pool drops items (seeded)
+	GCAt     []int           `json:"gc_at,omitempty"`     // grant numbers at which a GC cycle is forced
+	GCEnd    int             `json:"gc_end,omitempty"`    // GC cycles forced after the last task finished
+	GCStorm  bool            `json:"gc_storm,omitempty"`  // a GC cycle before every grant
 }
 
 type Plan struct {
@@ -143,7 +146,7 @@ func Main(install func(devs []*dev.Dev), idle *dev.Safe) {
 			}
 		}
 	}
-	s := &zzsimrt.Sched{RecordFD: -1, StepCap: p.StepCap, HotSites: p.Schedule.HotSites, PoolSeed: p.Schedule.PoolSeed, ForeignPossible: p.Foreign}
+	s := &zzsimrt.Sched{RecordFD: -1, StepCap: p.StepCap, HotSites: p.Schedule.HotSites, PoolSeed: p.Schedule.PoolSeed, ForeignPossible: p.Foreign, GCAt: append([]int(nil), p.Schedule.GCAt...), GCEnd: p.Schedule.GCEnd, GCStorm: p.Schedule.GCStorm}
 	if p.Record != "" {
 		fd, err := syscall.Open(p.Record, syscall.O_WRONLY|syscall.O_CREAT|syscall.O_TRUNC, 0644)
 		if err != nil {
